@@ -25,8 +25,8 @@ RULE = ("generated stylesheets (1-25 uniquely-selected rules; with/without backg
 ASSUMPTIONS = ["tinycss2 tokenizer/parser (dependency) as the reading of the stylesheet; csscolor/wcag oracles",
                "selectors are generated unique per sheet so cards and list lines identify rules",
                "rules inside at-rules other than @media/@supports are not 'rules nested in @media/@supports' and are not counted"]
-MUST_OBSERVE = {"any": ["sheets_judged", "cards_judged", "p1_checked", "p2_checked", "p4_rules_checked", "p5_checked", "listed_rules_checked", "subprocess_runs"]}
-SIZES = {"quick": dict(inproc=20, sub=2), "thorough": dict(inproc=400, sub=40)}
+MUST_OBSERVE = {"any": ["sheets_judged", "cards_judged", "p1_checked", "p2_checked", "p4_rules_checked", "p5_checked", "listed_rules_checked", "subprocess_runs", "dir_runs"]}
+SIZES = {"quick": dict(inproc=20, sub=2, dirs=6), "thorough": dict(inproc=400, sub=40, dirs=120)}
 SHARD_TIMEOUT = {"quick": 900, "thorough": 7200}
 DEFAULT_BGS = [None, None, "white", "black", "#eeeeee", "rgb(20, 20, 20)", "#fafafa", "navy"]
 
@@ -39,6 +39,7 @@ def shards(tier, seed):
     z = SIZES[tier]
     out = [{"kind": "inproc", "seed": seed, "idx": i, "n": z["inproc"]} for i in range(14)]
     out += [{"kind": "sub", "seed": seed, "idx": i, "n": z["sub"]} for i in range(2)]
+    out += [{"kind": "dir", "seed": seed, "idx": i, "n": z["dirs"]} for i in range(4)]
     return out
 
 
@@ -132,9 +133,10 @@ def file_errnode_key(model, target):
 
 
 def judge(rec, lib, css, st, fname, stdout, stderr, out_css, cards, feats, case):
+    """stdout: the command's stdout text, or an already parsed (per-file) summary dict."""
     target = 7.0 if st["premium"] else 4.5
     model = Model(css, st["default_bg"])
-    so = clirun.parse_stdout(stdout)
+    so = stdout if isinstance(stdout, dict) else clirun.parse_stdout(stdout)
     n = len(model.rules)
     rec.count("sheets_judged")
     rec.count("rules_with_colour", n)
@@ -258,11 +260,70 @@ def judge(rec, lib, css, st, fname, stdout, stderr, out_css, cards, feats, case)
         rec.violation(f"'already readable' counter is {so['accessible']} but {n_acc} rules are neither adjusted nor listed", case)
 
 
+def dir_runs(shard, rec, lib, scratch):
+    """Directory invocations: several sheets whose rules reference custom properties defined only in *another* file
+    (as text colour and as background, with and without fallback). A table or counter that leaks between files
+    changes a rule's classification; every file is judged against its own reading."""
+    rnd = G.rng("c08dir", shard["seed"], shard["idx"])
+    for si in range(shard["n"]):
+        st = settings(rnd)
+        dbg = (255, 255, 255) if st["default_bg"] is None else csscolor.read(st["default_bg"])
+        d = os.path.join(scratch, f"d{si}")
+        shutil.rmtree(d, ignore_errors=True)
+        os.makedirs(os.path.join(d, "sub"))
+        names = ["a.css", os.path.join("sub", "b.css"), "c.css"][:rnd.choice([2, 3])]
+        sheets = {}
+        for k, rel in enumerate(names):
+            sh = SS.make_sheet(rnd, premium=st["premium"], default_bg=dbg, rich=False, n_rules=rnd.choice([2, 4, 6]), tag=f"d{k}r",
+                               allow={"var", "var-chain", "var-fallback", "repeat", "invalid"})
+            other = (k + 1) % len(names)
+            text = sh.text
+            if k % 2 == 0:
+                text = f":root {{ --only{k}: #767676; --bg{k}: #101010; --shared: rgb({90 + 9 * k}, {90 + 9 * k}, {90 + 9 * k}); }}\n" + text
+            text += (f"\n.x{k}a {{ color: var(--only{other}); }}\n.x{k}b {{ color: #8a8a8a; background-color: var(--bg{other}); }}\n"
+                     f".x{k}c {{ color: var(--only{other}, #777777); background-color: #ffffff }}\n.x{k}d {{ color: var(--shared); }}\n")
+            sheets[rel] = (text, sh.features)
+            with open(os.path.join(d, rel), "w", encoding="utf-8", newline="") as f:
+                f.write(text)
+        rc, out, err = clirun.run(cli_args(".", st), d, inprocess=(si % 2 == 0))
+        rec.ev()
+        rec.count("dir_runs")
+        case = {"dir": {rel: t for rel, (t, _) in sheets.items()}, "settings": st}
+        if rc != 0:
+            rec.violation(f"cm-colors exited with {rc!r} on a directory of valid stylesheets; stderr {err[-300:]!r}", case)
+            continue
+        so = clirun.parse_stdout(out)
+        cards = clirun.parse_report(os.path.join(d, "cm_colors_report.html")) or []
+        tot_acc = 0
+        ok = True
+        for rel, (text, feats) in sheets.items():
+            base = os.path.basename(rel)
+            mine = [c for c in cards if c["file"] == base]
+            listed = [(f, sel) for f, sel in so["listed"] if f == base]
+            model = Model(text, st["default_bg"])
+            acc_i = len(model.rules) - len(mine) - len(listed)
+            tot_acc += acc_i
+            op = os.path.join(d, rel[:-4] + "_cm.css")
+            out_css = open(op, encoding="utf-8").read() if os.path.exists(op) else None
+            per_file = {"accessible": acc_i, "tuned": len(mine), "failed": len(listed), "listed_count": len(listed), "listed": listed}
+            nv = sum(rec.nviol.values())
+            judge(rec, lib, text, st, base, per_file, err, out_css, mine, feats, dict(case, file=rel))
+            ok = ok and sum(rec.nviol.values()) == nv
+        if ok and (tot_acc != so["accessible"] or len(cards) != so["tuned"] or len(so["listed"]) != so["failed"]):
+            rec.violation(f"directory run summary ({so['accessible']} readable, {so['tuned']} adjusted, {so['failed']} attention) does not add up over the files "
+                          f"({tot_acc} readable by per-file reading, {len(cards)} cards, {len(so['listed'])} listed)", case)
+        if cards:
+            rec.nontrivial((repr(sorted(case["dir"].items())), repr(st)))
+        shutil.rmtree(d, ignore_errors=True)
+
+
 def work(shard, rec):
     from cmv.lib import Lib
     lib = Lib()
     scratch = os.path.join(os.environ.get("CMV_SCRATCH", tempfile.gettempdir()), f"c08-{shard['kind']}-{shard['idx']}")
     os.makedirs(scratch, exist_ok=True)
+    if shard["kind"] == "dir":
+        return dir_runs(shard, rec, lib, scratch)
     rnd = G.rng("c08", shard["kind"], shard["seed"], shard["idx"])
     inproc = shard["kind"] == "inproc"
     mainmod = lib.mod("main")
@@ -331,6 +392,19 @@ def replay(case):
     lib = Lib()
     d = tempfile.mkdtemp(prefix="c08-replay-")
     st = case["settings"]
+    if "dir" in case:
+        for rel, text in case["dir"].items():
+            os.makedirs(os.path.dirname(os.path.join(d, rel)), exist_ok=True)
+            with open(os.path.join(d, rel), "w", encoding="utf-8", newline="") as f:
+                f.write(text)
+        rc, out, err = clirun.run(cli_args(".", st), d, inprocess=False)
+        print("settings:", st, "\n---- stdout\n" + out + "\n---- stderr\n" + err[-800:])
+        for rel, text in case["dir"].items():
+            op = os.path.join(d, rel[:-4] + "_cm.css")
+            print(f"---- {rel}\n{text}\n---- output\n" + (open(op, encoding='utf-8').read() if os.path.exists(op) else "<not written>"))
+        print("cards:", clirun.parse_report(os.path.join(d, "cm_colors_report.html")))
+        shutil.rmtree(d, ignore_errors=True)
+        return True
     with open(os.path.join(d, "sheet.css"), "w", encoding="utf-8", newline="") as f:
         f.write(case["css"])
     rc, out, err = clirun.run(cli_args("sheet.css", st), d, inprocess=False)
